@@ -128,7 +128,10 @@ def gen(rnd):
     """one history: data/pings, an application close at some event and/or a server close, app sends anywhere"""
     msgs_before = [scen.gen_message(rnd, big_ok=False) for _ in range(rnd.choice([0, 1, 2]))]
     between = [scen.gen_message(rnd, big_ok=False) for _ in range(rnd.choice([0, 0, 1, 2]))]
-    mode = rnd.choice(["client", "client", "server", "server", "both", "client_no_reply"])
+    mode = rnd.choice(["client", "client", "server", "server", "both", "client_no_reply", "crossing"])
+    if mode == "crossing" and not msgs_before:
+        msgs_before = [scen.gen_message(rnd, big_ok=False)]
+    deflate = rnd.random() < 0.2      # the connection negotiated permessage-deflate (control frames are never compressed)
     code = rnd.choice(CODES + [None])
     reason = b"" if code is None else scen.rand_text(rnd, rnd.choice([0, 1, 10, 122, 123, 123]))
     scode = rnd.choice(CODES + [None])
@@ -141,14 +144,21 @@ def gen(rnd):
     if mode in ("client", "client_no_reply", "both"):
         at = rnd.choice([1, 2, 3, n_before_events - 1, rnd.randrange(1, n_before_events)])
         app[at] = [("close", code, reason)]
+    if mode == "crossing":
+        # the closes cross: the application closes in its handler of the last message, and the server's Close is already in the
+        # same read, right behind that message
+        app[n_before_events - 1] = [("close", code, reason)]
     # application sends sprinkled around
     for _ in range(rnd.choice([0, 1, 2, 3])):
         i = rnd.randrange(1, n_before_events + len(cm) + 3)
         app.setdefault(i, [])
-        app[i] = app[i] + [rnd.choice([("text", b"late", True), ("ping", b"pp"), ("binary", b"\x01\x02", True), ("pong", b"")])]
-    stream1 = scen.HANDSHAKE + scen.render(fb)
+        app[i] = app[i] + [rnd.choice([("text", b"late", not deflate), ("ping", b"pp"), ("binary", b"\x01\x02", not deflate), ("pong", b"")])]
+    hs = scen.HANDSHAKE if not deflate else ref6455.handshake_response(scen.ACCEPT, extra=b"Sec-WebSocket-Extensions: permessage-deflate\r\n")
+    stream1 = hs + scen.render(fb)
+    if mode == "crossing":
+        stream1 += E(8, ref6455.close_payload(scode, sreason))
     stream2 = scen.render(fm)
-    steps = scen.steps_from_chunks(scen.chunkings(rnd, stream1, rnd.choice(["one", "random"])), dt=10, end=None)
+    steps = scen.steps_from_chunks(scen.chunkings(rnd, stream1, rnd.choice(["one", "random"]) if mode != "crossing" else "one"), dt=10, end=None)
     if stream2:
         steps += scen.steps_from_chunks(scen.chunkings(rnd, stream2, rnd.choice(["one", "random"])), dt=10, end=None)
     if mode in ("client", "server", "both"):
@@ -156,6 +166,8 @@ def gen(rnd):
         if mode == "client":
             sc["_server_close_after_client"] = [[] if scode is None else [scode], sreason]
             sc["_between"] = scen.expected_events(cb + cm) if (app and min(k for k, v in app.items() if any(a[0] == "close" for a in v)) <= 3) else None
+    elif mode == "crossing":
+        sc["_server_close_after_client"] = [[] if scode is None else [scode], sreason]
     else:
         steps += [("timeout", 5120)] * 2
     steps.append(("eof", 10))
@@ -166,6 +178,8 @@ def gen(rnd):
         steps[k:k] = [("timeout", 5120)] * rnd.choice([1, 2])
     # close_timeout 0 and None both mean "no timeout"; a long one must not fire within these histories either
     sc.update(dict(cfg=simnet.default_cfg(close_timeout=rnd.choice([None, None, 0, 0, 90 * 1024]), ping_rate=ping_rate), steps=steps, app=app, keys=scen.keys(rnd, 24), key16=scen.KEY16))
+    if deflate:
+        sc["ws_kwargs"] = dict(compress=True)
     sc["_eof_after"] = True
     sc["_mode"] = mode
     return sc
